@@ -445,6 +445,7 @@ func (comp) Gen(r *rand.Rand, tier string, emit func([]string)) {
 	genMutation(r, tier, emit)
 	genRandom(r, tier, emit)
 	genHlen(r, tier, emit)
+	genSubsecond(r, tier, emit)
 	genExhaustive(r, tier, emit)
 	genServer(r, tier, emit)
 }
